@@ -68,7 +68,7 @@ class Scratch:
         self.src = os.path.join(self.dir, "src")
         self.target = os.path.join(self.dir, "target")
 
-    def prepare(self, injections, native=False):
+    def prepare(self, injections, native=False, rewrites=None):
         """injections: {repo-relative real file: absolute harness file}.  native=True: no shims (replay)."""
         if os.path.exists(self.dir):
             shutil.rmtree(self.dir)
@@ -89,6 +89,12 @@ class Scratch:
         with open(os.path.join(self.src, "Cargo.toml"), "w") as f:
             f.write("[workspace]\nmembers = [%s]\nresolver = \"2\"\n\n[workspace.package]\nrust-version = \"1.75\"\n\n"
                     "[workspace.lints.rust]\n\n[workspace.lints.rustdoc]\n\n%s" % (", ".join('"%s"' % m for m in members), patch))
+        for (rel, old, new, count) in (rewrites or []):
+            rp = os.path.join(self.src, rel)
+            text = open(rp).read() if os.path.exists(rp) else ""
+            if text.count(old) != count:
+                raise Inconclusive("rewrite of %s does not apply (%d occurrences of %r, expected %d)" % (rel, text.count(old), old, count))
+            open(rp, "w").write(text.replace(old, new))
         for real, harness in sorted(injections.items()):
             p = os.path.join(self.src, real)
             if not os.path.exists(p):
@@ -298,7 +304,7 @@ def run_harness(meta, unwind, cap_s, mem_gb, workdir, extra_cbmc=(), unwindset=N
         if uwset:
             cbmc += ["--unwindset", ",".join(uwset)]
         res["unwindset"] = uwset
-        cbmc += ["--sat-solver", "cadical", "--slice-formula"] + list(extra_cbmc) + [work, "--json-ui", "--verbosity", "6"]
+        cbmc += ["--sat-solver", "cadical", "--slice-formula"] + list(extra_cbmc) + [work, "--json-ui", "--verbosity", "8"]
         res["unwind"] = uw
         outp = os.path.join(workdir, name + ".cbmc.json")
         rc, _, to = _run(cbmc, cap_s, mem_gb, outp)
@@ -321,7 +327,11 @@ def parse_cbmc_json(path, res, rc):
         data = json.load(open(path))
     except Exception as e:
         # cbmc killed (OOM / signal) leaves a truncated array
-        res["reason"] = "cbmc output unparsable (rc=%s; killed or out of memory)" % rc
+        raw = open(path, errors="replace").read()
+        m = re.search(r"size of program expression: (\d+) steps", raw)
+        m2 = re.search(r"Generated (\d+) VCC\(s\), (\d+) remaining", raw)
+        res["reason"] = "cbmc output unparsable (rc=%s; killed or out of memory; symex steps=%s, vccs=%s)" % (
+            rc, m.group(1) if m else "?", m2.group(2) if m2 else "?")
         return
     results = None
     status = None
@@ -338,6 +348,19 @@ def parse_cbmc_json(path, res, rc):
             m = re.search(r"Runtime (?:decision procedure|Solver): ([0-9.]+)s", mt)
             if m:
                 solver_s += float(m.group(1))
+            m = re.search(r"size of program expression: (\d+) steps", mt)
+            if m:
+                res["symex_steps"] = int(m.group(1))
+            m = re.search(r"Generated (\d+) VCC\(s\), (\d+) remaining", mt)
+            if m:
+                res["vccs"] = int(m.group(2))
+            m = re.search(r"Runtime Symex: ([0-9.]+)s", mt)
+            if m:
+                res["symex_s"] = float(m.group(1))
+            m = re.search(r"^(\d+) variables, (\d+) clauses", mt)
+            if m:
+                res["sat_vars"] = max(res.get("sat_vars", 0), int(m.group(1)))
+                res["sat_clauses"] = max(res.get("sat_clauses", 0), int(m.group(2)))
             if e.get("messageType") == "ERROR":
                 res.setdefault("errors", []).append(mt[:300])
     res["solver_s"] = round(solver_s, 2)
@@ -398,24 +421,42 @@ def parse_cbmc_json(path, res, rc):
 
 
 def run_all(metas, specs, workdir, jobs):
-    """specs: {name: dict(unwind, cap_s, mem_gb, extra_cbmc)}; runs in parallel; returns {name: result}."""
+    """specs: {name: dict(unwind, cap_s, mem_gb, extra_cbmc, unwindset)}; runs in parallel under a job limit AND a memory
+    budget (sum of the address-space caps of the running harnesses <= VERIF_MEM_GB); returns {name: result}."""
     os.makedirs(workdir, exist_ok=True)
     out = {}
-    # longest caps first so the pool drains evenly
-    order = sorted(metas, key=lambda n: -specs[n].get("cap_s", 240))
-    with ThreadPoolExecutor(max_workers=jobs) as ex:
-        futs = {n: ex.submit(run_harness, metas[n], specs[n].get("unwind"), specs[n].get("cap_s", 240),
-                             specs[n].get("mem_gb", 10), workdir, specs[n].get("extra_cbmc", ()),
-                             specs[n].get("unwindset")) for n in order}
-        from concurrent.futures import as_completed
-        inv = {f: n for n, f in futs.items()}
-        for f in as_completed(inv):
-            n = inv[f]
+    budget = float(os.environ.get("VERIF_MEM_GB", "50"))
+    order = sorted(metas, key=lambda n: (-specs[n].get("mem_gb", 10), -specs[n].get("cap_s", 240)))
+    lock = threading.Condition()
+    state = dict(mem=0.0, running=0)
+
+    def worker(n):
+        sp = specs[n]
+        need = min(float(sp.get("mem_gb", 10)), budget)
+        with lock:
+            while state["running"] >= jobs or state["mem"] + need > budget + 1e-9:
+                lock.wait()
+            state["running"] += 1
+            state["mem"] += need
+        try:
             try:
-                out[n] = f.result()
+                r = run_harness(metas[n], sp.get("unwind"), sp.get("cap_s", 240), sp.get("mem_gb", 10), workdir,
+                                sp.get("extra_cbmc", ()), sp.get("unwindset"))
             except Exception as e:  # noqa
-                out[n] = dict(harness=n, status="inconclusive", reason="runner exception: %r" % (e,), failed=[], covers={},
-                              checks=0, solver_s=None, wall_s=0.0)
-            r = out[n]
-            log("%-48s %-12s %6.1fs checks=%-5s %s" % (n, r["status"], r["wall_s"], r["checks"], r["reason"][:140]))
+                r = dict(harness=n, status="inconclusive", reason="runner exception: %r" % (e,), failed=[], covers={},
+                         checks=0, solver_s=None, wall_s=0.0)
+        finally:
+            with lock:
+                state["running"] -= 1
+                state["mem"] -= need
+                lock.notify_all()
+        out[n] = r
+        log("%-48s %-12s %6.1fs checks=%-5s steps=%s vccs=%s %s" % (n, r["status"], r["wall_s"], r["checks"], r.get("symex_steps"),
+                                                                   r.get("vccs"), r["reason"][:140]))
+
+    threads = [threading.Thread(target=worker, args=(n,)) for n in order]
+    for t in threads:
+        t.start()
+    for t in threads:
+        t.join()
     return out
